@@ -320,6 +320,41 @@ def run(ctx):
                                 "c%d%d of the original is %.10g" % (pi, k2[0], k2[1], got, k[0], k[1], base[k]),
                                 input=dict(pi=pi, strain=strain, spectrum=c["sp"].par), expected=base[k], observed=got)
 
+    # ---- targeted search: coinciding frames (equal axial strains) x many request orders -------------
+    # (merged tasks are where a missing edge / wrong order can hide; each run is ~50 ms)
+    c = H.make_case(rng, nq=1, na=1, nv=1, temps=[0.0, 700.0])
+    calc = H.duck_calculator(c)
+    nshuf = 6 if ctx.tier == "quick" else 40
+    for strain in ([[1.0, 1.0, 1.0]], [[2.0, 1.0, 1.0]], [[1.0, 2.0, 2.0]], [[1.0, 2.0, 1.0]], [[0.3, 0.3, 0.4]]):
+        orders = [list(ALL_KEYS), list(reversed(ALL_KEYS))]
+        for _ in range(nshuf):
+            o = list(ALL_KEYS)
+            rng.shuffle(o)
+            orders.append(o[:rng.randint(3, 21)])
+        for keys in orders:
+            ctx.case(dict(kind="coinciding-frames", strain=strain, keys=keys), nontrivial=True)
+            ctx.count("coinciding-frame order runs")
+            try:
+                tl, iso, adi = run_tl(TK, c_, calc, strain, keys)
+            except Exception as ex:
+                ctx.failure("tasklist-hangs" if isinstance(ex, Hang) else "tasklist-raises",
+                            "PhononContributionTaskList raised %s: %s" % (type(ex).__name__, ex),
+                            input=dict(keys=keys, strain=strain))
+                break
+            bad = False
+            for pos, t in enumerate(tl.data):
+                for (ds, dk) in t.get_dependencies():
+                    pp = TK.PhononContributionTaskParams.create(ds, dk)
+                    if not any(x.task_params == pp for x in tl.data[:pos]):
+                        ctx.failure("order-c%d%d" % tuple(t.key.v),
+                                    "task c%d%d is evaluated before its dependency c%d%d"
+                                    % (t.key.v[0], t.key.v[1], dk.v[0], dk.v[1]), input=dict(keys=keys, strain=strain))
+                        bad = True
+                        break
+                if bad:
+                    break
+            if bad:
+                break
     files = []
     per = 8
     for si in range(0, len(cases), per):
